@@ -188,7 +188,13 @@ def closed_case(ctx, rng, idx):
 def exact_loglik(u, w, N, D, data):
     """data: list of (edge tuple, weight).  -inf when a data hyperedge is outside the model"""
     tot = 0.0
-    for e in all_hyperedges(N, D):
+    if N > 9:
+        # sum over ALL hyperedges of lambda/kappa = sum_d 2/(d(d-1)) * sum_{i<j} u_i w u_j: each pair lies in C(N-2, d-2)
+        # hyperedges of size d (the identity the closed-form cases verify by brute force for N <= 8)
+        us = u.sum(axis=0)
+        pair = 0.5 * (float(us @ w @ us) - float(np.einsum("ik,kl,il->", u, w, u)))
+        tot = sum(2 / (d * (d - 1)) for d in range(2, D + 1)) * pair
+    for e in (all_hyperedges(N, D) if N <= 9 else []):
         tot += lam(u, w, e) / kappa(N, len(e))
     ll = -tot
     for e, a in data:
@@ -217,13 +223,16 @@ def fit_case(ctx, rng, idx):
 
     forced = FORCED.get(idx)
     N = rng.randint(4, 8)
+    if idx == 8 or (ctx.tier == "thorough" and idx % 600 == 11):
+        N = rng.randint(25, 50)  # scale
+        ctx.event("big-fit")
     K = rng.randint(1, 3)
     weighted = rng.random() < 0.5
     edges = set()
     pool = list(range(N))
     if rng.random() < 0.35:  # a node (not necessarily the last one) that takes part in no hyperedge
         pool.remove(rng.randrange(N))
-    for _ in range(rng.randint(2, 12)):
+    for _ in range(rng.randint(2, 12) if N <= 8 else rng.randint(60, 150)):
         edges.add(tuple(sorted(rng.sample(pool, min(len(pool), rng.choice([2, 2, 3, 3, 4, 5][: max(1, N - 1)]))))))
     edges = sorted(edges)
     wts = [rng.randint(1, 4) if weighted else 1 for _ in edges]
@@ -235,7 +244,7 @@ def fit_case(ctx, rng, idx):
     u_prior = rng.choice([0.0, 1.0])
     mode = rng.choice(["u-supplied", "u-supplied", "u-supplied", "both-inferred", "w-supplied", "both-supplied"])
     give_max = rng.random() < 0.5
-    D_given = rng.randint(dmax, N) if give_max else None
+    D_given = rng.randint(dmax, min(N, dmax + 3)) if give_max else None
     seed = rng.randrange(2**31)
     u_in = w_in = None
     if mode in ("u-supplied", "both-supplied"):
@@ -259,7 +268,7 @@ def fit_case(ctx, rng, idx):
     data = list(zip(edges, wts))
 
     def wit(extra=None):
-        return {"N": N, "K": K, "edges": edges, "weights": wts, "assortative": assortative, "w_prior": w_prior, "u_prior": u_prior,
+        return {"N": N, "K": K, "edges": edges if len(edges) <= 30 else len(edges), "weights": wts if len(edges) <= 30 else None, "assortative": assortative, "w_prior": w_prior, "u_prior": u_prior,
                 "mode": mode, "max_hye_size": D_given, "seed": seed, "fit_kwargs": fit_kw, "u": None if u_in is None else u_in.tolist(),
                 "w": None if w_in is None else w_in.tolist(), "extra": repr(extra)[:900]}
 
